@@ -355,6 +355,9 @@ func selftest(id string) int {
 				fmt.Println("    " + l)
 			}
 		}
+		// the patched build (binary, overlay, replays) is not needed once the verdict is printed
+		hh := sha256.Sum256([]byte(m))
+		os.RemoveAll(filepath.Join(verif, ".build", id+"-p"+hex.EncodeToString(hh[:4])))
 		switch code {
 		case 1:
 			fmt.Println("    caught")
